@@ -11,6 +11,7 @@ from spec_classes.errors import FrozenInstanceError
 from spec_classes.types import MISSING, UNCHANGED, Attr
 from spec_classes.utils.method_builder import MethodBuilder
 from spec_classes.utils.mutation import (
+    _licensed,
     _restored_on_error,
     invalidate_attrs,
     mutate_attr,
@@ -315,7 +316,11 @@ class DelAttrMethod(MethodDescriptor):
             if default is MISSING:
                 # (Invalidating dependants may run user code; if that fails,
                 # the attribute is put back.)
-                with _restored_on_error(self, enabled=not skip_invalidation):
+                # (A forced delete - on a private copy of a frozen instance -
+                # may run user code, such as a property deleter.)
+                with _restored_on_error(
+                    self, enabled=not skip_invalidation
+                ), _licensed(self, enabled=force and self.__spec_class__.frozen):
                     self.__delattr__.__raw__(self, attr)
                     if not skip_invalidation:
                         invalidate_attrs(self, attr)
